@@ -179,3 +179,64 @@ Proof. exact (@Ht_herm_general T r0 r1 add mul sub opp (teq M) (trunc_ops M) (Rg
 Theorem gauge_upto0 : teq M (Sel (half ((sol "U" - 1) - adj (sol "U" - 1)))) 0.
 Proof. exact (@gauge_general T r0 r1 add mul sub opp (teq M) (trunc_ops M) (Rgt M) (BAt M hsum_trunc) rflag fenv sol Hsol W). Qed.
 End TruncMain0.
+
+(** Two-block optimisation: the same, with the parity laws of [wiring_tb] (exact) added. *)
+Section TruncMainTB0.
+Context {T : Type} {r0 r1 : T} {add mul sub : T -> T -> T} {opp : T -> T} {req : T -> T -> Prop}
+        {Ro : @Ring_ops T r0 r1 add mul sub opp req} {Rg : @Ring T r0 r1 add mul sub opp req Ro}
+        {BA : BlockAlg T}.
+Variable M : nat.
+Hypothesis hsum_trunc : forall a a' b b', teq M a a' -> teq M b b' -> teq M (hsum a b) (hsum a' b').
+Variable rflag : string -> T -> T.
+Variable fenv : string -> list T -> T.
+Variable H0 : T.
+Variable sol : string -> T.
+Hypothesis sylv_sub : forall x y, sylv fenv (x - y) == sylv fenv x - sylv fenv y.
+Hypothesis f_rflag : forall x, rflag "commuting_blocks" x == Rw x.
+Hypothesis f_comm_l : forall x y, Rw (Sel (Rp x * Sel y)) == 0.
+Hypothesis f_comm_r : forall x y, Rw (Sel (Sel y * Rp x)) == 0.
+Hypothesis f_sylv_ord : forall k y, ord k y -> ord k (sylv fenv y).
+Hypothesis f_sylv_adj : forall y, sylv fenv (adj y) == - adj (sylv fenv y).
+Hypothesis f_H0_kept : Sel H0 == H0.
+Hypothesis f_Sel_adH0 : forall x, Sel (comm H0 x) == comm H0 (Sel x).
+Hypothesis f_sylv_spec : forall y, Rp (comm H0 (sylv fenv y)) == Rp y.
+Hypothesis t_herm : teq M (adj (sol "H")) (sol "H").
+Hypothesis t_zero : teq M (Zc (sol "H")) H0.
+Hypothesis b_Sel_Dg : forall x, Sel x == Dg x.
+Hypothesis b_Rw_Dg : forall x, Rw (Dg x) == Dg x.
+Hypothesis b_odd_odd : forall x y, Dg (Od x * Od y) == Od x * Od y.
+Hypothesis b_up_dg_up : forall x y, Up (Dg x * Up y) == Dg x * Up y.
+Hypothesis b_up_up_dg : forall x y, Up (Up x * Dg y) == Up x * Dg y.
+Hypothesis b_lo_dg_lo : forall x y, Lo (Dg x * Lo y) == Dg x * Lo y.
+Hypothesis b_lo_lo_dg : forall x y, Lo (Lo x * Dg y) == Lo x * Dg y.
+Hypothesis Hsol : @solution T r0 r1 add mul sub opp (teq M) (trunc_ops M) (BAt M hsum_trunc) (gflag_of true) rflag fenv sol main_alg.
+
+Let W := trunc_wiring_H0 M hsum_trunc rflag fenv sylv_sub (sol "H") H0 f_rflag f_comm_l f_comm_r f_sylv_ord f_sylv_adj
+           f_H0_kept f_Sel_adH0 f_sylv_spec t_herm t_zero.
+Lemma Wtb : @wiring_tb T r0 r1 add mul sub opp (teq M) (trunc_ops M) (BAt M hsum_trunc) rflag fenv (sol "H").
+Proof.
+  refine (@Build_wiring_tb T r0 r1 add mul sub opp (teq M) (trunc_ops M) (BAt M hsum_trunc) rflag fenv (sol "H") W _ _ _ _ _ _ _).
+  - intros x. apply lift_teq. apply b_Sel_Dg.
+  - intros x. apply lift_teq. apply b_Rw_Dg.
+  - intros x y. apply lift_teq. apply b_odd_odd.
+  - intros x y. apply lift_teq. apply b_up_dg_up.
+  - intros x y. apply lift_teq. apply b_up_up_dg.
+  - intros x y. apply lift_teq. apply b_lo_dg_lo.
+  - intros x y. apply lift_teq. apply b_lo_lo_dg.
+Qed.
+
+Theorem kept_tb_upto0 : teq M (Sel (sol "U†" * sol "H" * sol "U")) (sol "H_tilde").
+Proof. exact (@kept_tb T r0 r1 add mul sub opp (teq M) (trunc_ops M) (Rgt M) (BAt M hsum_trunc) rflag fenv sol Hsol Wtb). Qed.
+Theorem eliminated_tb_upto0 : teq M (Rp (sol "U†" * sol "H" * sol "U")) 0.
+Proof. exact (@eliminated_tb T r0 r1 add mul sub opp (teq M) (trunc_ops M) (Rgt M) (BAt M hsum_trunc) rflag fenv sol Hsol Wtb). Qed.
+Theorem unitary_l_tb_upto0 : teq M (sol "U†" * sol "U") 1.
+Proof. exact (@unitary_l_tb T r0 r1 add mul sub opp (teq M) (trunc_ops M) (Rgt M) (BAt M hsum_trunc) rflag fenv sol Hsol Wtb). Qed.
+Theorem unitary_r_tb_upto0 : teq M (sol "U" * sol "U†") 1.
+Proof. exact (@unitary_r_tb T r0 r1 add mul sub opp (teq M) (trunc_ops M) (Rgt M) (BAt M hsum_trunc) rflag fenv sol Hsol Wtb). Qed.
+Theorem adjoint_tb_upto0 : teq M (adj (sol "U")) (sol "U†").
+Proof. exact (@adjoint_tb T r0 r1 add mul sub opp (teq M) (trunc_ops M) (Rgt M) (BAt M hsum_trunc) rflag fenv sol Hsol Wtb). Qed.
+Theorem Ht_herm_tb_upto0 : teq M (adj (sol "H_tilde")) (sol "H_tilde").
+Proof. exact (@Ht_herm_tb T r0 r1 add mul sub opp (teq M) (trunc_ops M) (Rgt M) (BAt M hsum_trunc) rflag fenv sol Hsol Wtb). Qed.
+Theorem gauge_tb_upto0 : teq M (Sel (half ((sol "U" - 1) - adj (sol "U" - 1)))) 0.
+Proof. exact (@gauge_tb T r0 r1 add mul sub opp (teq M) (trunc_ops M) (Rgt M) (BAt M hsum_trunc) rflag fenv sol Hsol Wtb). Qed.
+End TruncMainTB0.
